@@ -429,6 +429,10 @@ pub struct ThreadsScn {
     pub restarts: Vec<(usize, usize)>,
     pub preempt_entropy: bool,
     pub preempt_clock: bool,
+    /// atomics leg only (binary built with the simulator's sanitizer runtime): per-mille chance
+    /// that the running thread is preempted before an atomic operation of instrumented code
+    #[serde(default)]
+    pub atomic_preempt_pm: u64,
 }
 
 pub fn gen_c14(rng: &mut Rng, tier: Tier) -> Result<Value, serde_json::Error> {
@@ -487,6 +491,7 @@ pub fn gen_c14(rng: &mut Rng, tier: Tier) -> Result<Value, serde_json::Error> {
         restarts,
         preempt_entropy: rng.chance(7, 8),
         preempt_clock: rng.bool(),
+        atomic_preempt_pm: *rng.pick(&[2u64, 10, 50, 200]),
     })
 }
 
@@ -499,6 +504,9 @@ struct WorldOut {
     /// times a granted node was found asleep on a lock held by a parked node
     blocked: u64,
     deadlocked: bool,
+    /// atomics leg: atomic operations seen inside jobs, preemptions taken there
+    atomic_points: u64,
+    atomic_preempts: u64,
 }
 
 /// One world: `threads` issuer nodes in lock-step, each issuing `per_thread` credentials.
@@ -534,6 +542,10 @@ fn run_threads_world(scn: &ThreadsScn, entropy_seed: u64) -> WorldOut {
     // a wake-up of a simulated lock waiter is a scheduling point too (who goes on first, the
     // thread that released the lock or the one that was waiting for it, is the simulator's choice)
     crate::rt::FUTEX_WAKE_YIELDS.store(seam_preempt, Ordering::SeqCst);
+    #[cfg(sdsim_tsan)]
+    crate::tsanrt::configure(mix(&[scn.sched_seed, 0xa70]), if seam_preempt { scn.atomic_preempt_pm } else { 0 });
+    #[cfg(sdsim_tsan)]
+    let at0 = crate::tsanrt::counters();
     loop {
         for t in 0..scn.threads {
             if !busy[t] && remaining[t] > 0 {
@@ -597,9 +609,18 @@ fn run_threads_world(scn: &ThreadsScn, entropy_seed: u64) -> WorldOut {
     seams::PREEMPT_ENTROPY.store(false, Ordering::SeqCst);
     seams::PREEMPT_CLOCK.store(false, Ordering::SeqCst);
     crate::rt::FUTEX_WAKE_YIELDS.store(false, Ordering::SeqCst);
+    #[cfg(sdsim_tsan)]
+    crate::tsanrt::configure(1, 0);
     let (sp, st) = (w.rt.spawned, w.rt.steps);
     w.rt.shutdown();
-    WorldOut { issued, sched_hash, preempts, threads_spawned: sp, steps: st, blocked, deadlocked }
+    #[cfg(sdsim_tsan)]
+    let (atomic_points, atomic_preempts) = {
+        let at1 = crate::tsanrt::counters();
+        (at1.0 - at0.0, at1.1 - at0.1)
+    };
+    #[cfg(not(sdsim_tsan))]
+    let (atomic_points, atomic_preempts) = (0, 0);
+    WorldOut { issued, sched_hash, preempts, threads_spawned: sp, steps: st, blocked, deadlocked, atomic_points, atomic_preempts }
 }
 
 struct SaltScan {
@@ -771,6 +792,10 @@ pub fn execute_c14(scn_v: &Value) -> RunReport {
     cx.rep.add("rt.threads_spawned", a.threads_spawned + b.threads_spawned);
     cx.rep.add("rt.steps", a.steps + b.steps);
     cx.rep.add("fault.preempt_at_seam", a.preempts);
+    if a.atomic_points > 0 {
+        cx.rep.add("probe.atomic_operations_seen_in_jobs", a.atomic_points + b.atomic_points);
+        cx.rep.add("fault.preempt_at_atomic_operation", a.atomic_preempts + b.atomic_preempts);
+    }
     cx.rep.add("fault.restart_node", scn.restarts.len() as u64);
     if a.preempts > 0 {
         cx.rep.count("probe.preempted_inside_issue");
